@@ -11,6 +11,9 @@ from . import progs
 from .progs import Raise
 
 ORDER = {'no': 0, 'opt': 1, 'req': 2}
+# C13 only needs valid programs, not predictable values: it switches this off to allow order-sensitive stages
+# (batch, concatenate, zip, tile, copy(freeze=True)) above per-epoch random stages
+STRICT_UNORDERED = [True]
 
 
 def cmin(*caps):
@@ -210,31 +213,32 @@ def ev_nary(op, node, ms):
         order = [(d, j) for d, mm in enumerate(ms) for j in range(mm.n)]
         vals = [ms[d].vals[j] for d, j in order]
         keys, ck, ci, cs, taint = combine_keys(ms, order)
-        if any(mm.unordered for mm in ms):
+        if STRICT_UNORDERED[0] and any(mm.unordered for mm in ms):
             raise Invalid('concat over unordered (not generated)')
         return Model(vals, keys, ck, ci, cs, indexable=all(mm.indexable for mm in ms),
-                     sized=all(mm.sized for mm in ms), taint=taint, int_taint=any(mm.int_taint for mm in ms))
+                     sized=all(mm.sized for mm in ms), taint=taint, int_taint=any(mm.int_taint for mm in ms),
+                     unordered=any(mm.unordered for mm in ms))
     if op == 'intersperse':
         if not all(mm.sized and mm.n > 0 for mm in ms):
             raise Invalid('intersperse needs sized, non-empty inputs')
-        if any(mm.unordered for mm in ms):
+        if STRICT_UNORDERED[0] and any(mm.unordered for mm in ms):
             raise Invalid('intersperse over unordered (not generated)')
         order = intersperse_order([mm.n for mm in ms])
         vals = [ms[d].vals[j] for d, j in order]
         keys, ck, ci, cs, taint = combine_keys(ms, order)
         return Model(vals, keys, ck, ci, cs, indexable=all(mm.indexable for mm in ms), sized=True, taint=taint,
-                     int_taint=any(mm.int_taint for mm in ms))
+                     int_taint=any(mm.int_taint for mm in ms), unordered=any(mm.unordered for mm in ms))
     if op == 'zip':
         if not all(mm.sized for mm in ms) or len({mm.n for mm in ms}) != 1:
             raise Invalid('zip needs sized inputs of equal length')
-        if any(mm.unordered for mm in ms):
+        if STRICT_UNORDERED[0] and any(mm.unordered for mm in ms):
             raise Invalid('zip over unordered (not generated)')
         vals = []
         for tup in zip(*[mm.vals for mm in ms]):
             r = first_raise(tup)
             vals.append(r if r is not None else tuple(tup))
         return Model(vals, indexable=all(mm.indexable for mm in ms), sized=True,
-                     int_taint=any(mm.int_taint for mm in ms))
+                     int_taint=any(mm.int_taint for mm in ms), unordered=any(mm.unordered for mm in ms))
     if op == 'key_zip':
         if len(ms) < 2:
             raise Invalid('key_zip needs two inputs')
@@ -266,6 +270,8 @@ def ev_unary(op, node, m):
     if op == 'boom':
         return m.clone(vals=[
             lift(lambda v: progs.boom_model(node['m'], node['r'], node['exc'], node['fn'], v), v) for v in m.vals])
+    if op == 'spy':
+        return m
     if op == 'mapc':
         def comp(v, fns=tuple(node['fns'])):
             for i in fns:
@@ -348,9 +354,9 @@ def ev_unary(op, node, m):
             tail = m.vals[len(vals) * bs:]
             if first_raise(tail) is not None:
                 raise Invalid('raising element in a dropped incomplete batch (not generated)')
-        if m.unordered:
+        if STRICT_UNORDERED[0] and m.unordered:
             raise Invalid('batch over unordered (not generated)')
-        return Model(vals, indexable=m.indexable, sized=m.sized, int_taint=m.int_taint)
+        return Model(vals, indexable=m.indexable, sized=m.sized, int_taint=m.int_taint, unordered=m.unordered)
     if op == 'unbatch':
         vals = []
         for v in m.vals:
@@ -376,14 +382,14 @@ def ev_unary(op, node, m):
             raise Invalid('tile count')
         if r == 1:
             return m
-        if m.unordered:
+        if STRICT_UNORDERED[0] and m.unordered:
             raise Invalid('tile over unordered (not generated)')
         order = [(d, j) for d in range(r) for j in range(m.n)]
         ms = [m] * r
         vals = [m.vals[j] for d, j in order]
         keys, ck, ci, cs, taint = combine_keys(ms, order)
         return Model(vals, keys, ck, ci, cs, indexable=m.indexable, sized=m.sized, taint=taint,
-                     int_taint=m.int_taint)
+                     int_taint=m.int_taint, unordered=m.unordered)
     if op == 'cache':
         if node['lazy']:
             if not m.indexable:
@@ -412,7 +418,7 @@ def ev_unary(op, node, m):
         return Model(vals, keys, 'no', cmin(m.cap_keys, m.cap_str), m.cap_str, indexable=False, sized=False,
                      taint=m.taint)
     if op == 'copy':
-        if node['freeze'] and m.unordered:
+        if STRICT_UNORDERED[0] and node['freeze'] and m.unordered:
             # freezing fixes one (unpredictable) order and changes the capabilities; that is C13's subject
             raise Invalid('copy(freeze=True) of a per-epoch random pipeline (not generated here)')
         return m
